@@ -379,7 +379,7 @@ CHECKS["C17"] = {
               "them, a registration callback assigning pairwise distinct nodes unrelated to the candidates, every client sending a drawn interleaving of tagged messages, requests and notifications "
               "at the same time; handlers record the context's session id / remote node / local node and reply through the Sender they were handed: context values must be those of the sending client's "
               "session, every reply must arrive at the client that sent the tag and at no other, each envelope is handled exactly once, session ids are pairwise distinct and equal to ClientChannel.ID() "
-              "and to the ids (and channels) passed to the Established callback, and each client is announced its own registered node."),
+              "and to the ids (and channels) passed to the Established callback, and each client is announced its own registered node. Plus (TestC17Ping) 2-16 sessions of a ServerBuilder server with AutoReplyPings, over the in-process transport and loopback TCP, pinging at the same time (50-600 ProcessCommand calls each): every call gets the response to its own request addressed to its own node, none is lost, nothing unsolicited surfaces."),
     "note": "Schedules are sampled; in-process dials are serialised by the harness because the library's in-process listener registry is an unsynchronised global (not part of any listed property).",
     "technique": "property-based testing (rapid) of concurrent multi-session workloads with a per-tag routing oracle; virtual time and real sockets",
     "rule": "case = (per-client transport and op list, channel buffer). Non-trivial: >=3 clients on >=2 transports. Distinct by SHA-1 of the case.",
@@ -387,6 +387,7 @@ CHECKS["C17"] = {
     "jobs": [
         {"test": "TestC17Replay", "kind": "plain"},
         {"test": "TestC17", "kind": "rapid", "shards": 8, "checks": (70, 4000), "timeout": (300, 3000), "gomaxprocs": [1, 2, 4, 16]},
+        {"test": "TestC17Ping", "kind": "rapid", "shards": 4, "checks": (25, 600), "timeout": (300, 3000), "gomaxprocs": [4, 16, 2, 8], "shrink": (5, 20)},
         {"test": "TestC17Real", "kind": "rapid", "shards": 4, "checks": (15, 400), "timeout": (300, 3000), "gomaxprocs": [4, 16], "shrink": (20, 60)},
     ],
 }
